@@ -21,6 +21,13 @@ for name, r in sorted(res.items()):
         rows.append((name, 'NOT CONFIRMED', r.get('patch_applies'), r.get('clean_with_demo_passes'), r.get('changed_suite_passes'), r.get('changed_demo_fails')))
         continue
     dst = '/verif/seeded/%s-%s' % (prop, n)
+    if not os.path.exists(os.path.join(src, 'patch.diff')):
+        if os.path.exists(os.path.join(dst, 'meta.json')):
+            m0 = json.load(open(os.path.join(dst, 'meta.json')))
+            rows.append((name, 'caught' if m0.get('detected_by') else 'MISSED', 'concrete' if m0.get('detected_with_concrete_input') else 'no-failing-input-found', '(archived) ' + m0.get('summary', '')[:90]))
+        else:
+            rows.append((name, 'SOURCE MISSING'))
+        continue
     os.makedirs(dst, exist_ok=True)
     shutil.copy(os.path.join(src, 'patch.diff'), dst)
     shutil.copy(os.path.join(src, 'demo_test.go'), os.path.join(dst, 'demo_test.go.txt'))
